@@ -637,10 +637,10 @@ def main():
     ctx = Ctx("C15")
     ctx.rule = ("manufactured systems: (mesh) x (operator: Laplace V [SPD], 1/2I-K, Helmholtz V [complex], blocked 2x2 with block sizes ne != nv in straight and "
                 "column-permuted order, complex blocked, range/dual dof counts differing [weak form only]; thorough adds full [[V,K],[K',W+M]] Laplace and "
-                "Helmholtz, W+M, Maxwell EFIE/MFIE on RWG/SNC, scaled / summed / generalized / nested generalized blocked operators, three meshes) x "
+                "Helmholtz, W+M, Maxwell EFIE on RWG/SNC (weak form only: the RWG-SNC Gram matrix is singular), scaled / summed / generalized / nested generalized blocked operators, three meshes) x "
                 "(rhs via A*f, via own projections, via own range coefficients; real and complex f) x (lu direct + precomputed factors; gmres over tol "
                 "1e-4..1e-12, restart None/5/10/n/2/n/2n, maxiter None/3/7/n/2/400, weak/strong; cg likewise on SPD systems) x the four "
-                "return_residuals/return_iteration_count combinations. One evaluation = one solver call checked (a lu case is two solves). Distinct = "
+                "return_residuals/return_iteration_count combinations. One evaluation = one solver call checked against the model (a lu case is a direct and a factor solve; a mul case checks A*f only). Distinct = "
                 "distinct (system, solver, settings).")
     ctx.assumptions = ["dense weak forms of elementary operators (weak_form().to_dense()) and sparse identity operators are trusted here (decided by C01-C07, C13); the blocked / summed / scaled structure is rebuilt independently with NumPy",
                        "scipy.sparse.linalg.gmres / cg themselves are trusted; they serve, on the dense model, as reference for whether convergence within restart/maxiter is to be expected (margins: >= 2 iterations, factor 10 in residual; otherwise only consistency is demanded)",
